@@ -154,6 +154,8 @@ inductive Obj
   | pair (a b : Obj)
   | none
   | notImpl
+  | cplx (re im : Nat)     -- py.Complex: bit patterns of the real and imaginary parts
+  | cplxOpaque             -- a complex (or complex-derived) result whose value is not modelled (cmplx.Pow, complex division)
 deriving DecidableEq, Repr, Inhabited
 
 abbrev Res := Except Err Obj
@@ -163,6 +165,7 @@ def maybeInt (v : Int) : Obj := if IntMin ≤ v ∧ v ≤ IntMax then .int v els
 
 def typeTag : Obj → Nat
   | .int _ => 0 | .big _ => 1 | .bool _ => 2 | .float _ => 3 | .str _ => 4 | .pair _ _ => 5 | .none => 6 | .notImpl => 7
+  | .cplx _ _ => 8 | .cplxOpaque => 8
 
 /-- `(*BigInt).Float` (after the fix: one rounding, OverflowError iff the nearest float is infinite) -/
 def bigFloat (v : Int) : Except Err Nat :=
@@ -186,6 +189,22 @@ def intOf : Obj → Option Int
   | .int v | .big v => some v
   | .bool b => some (if b then 1 else 0)
   | _ => none
+
+/-- `floatNotImplemented`: what a binary float (or complex) method answers for an operand that
+`convertToFloat` refused: OverflowError for an int too large for a float, else NotImplemented -/
+def floatNotImplemented (other : Obj) : Except Err Obj :=
+  match other with
+  | .big v => match bigFloat v with | .error e => .error e | .ok _ => .ok .notImpl
+  | _ => .ok .notImpl
+
+/-- `floatPow`: math.Pow plus the cases Python defines differently -/
+def floatPow (fp : FP) (x y : Nat) : Except Err Obj :=
+  let finite := !isInf x && !isInf y && !isNaN x && !isNaN y
+  if finite && isZero x && fp.lt y 0 then .error .zeroDiv
+  else if finite && fp.lt x 0 && !(fp.eq y (fp.floor y)) then .ok .cplxOpaque   -- cmplx.Pow: value not modelled
+  else
+    let r := fp.pow x y
+    if finite && isInf r then .error .overflow else .ok (.float r)
 
 /-- `floatDivMod` (CPython's float_divmod) -/
 def floatDivMod (fp : FP) (a b : Nat) : Except Err (Nat × Nat) :=
@@ -248,19 +267,57 @@ def intCmpMethod (op : CmpOp) (a : Int) (other : Obj) : Obj :=
   | some b => .bool (op.holds (some (compare a b)))
   | none => .notImpl
 
+/-- `convertToComplex` -/
+def convertToComplex : Obj → Option (Nat × Nat)
+  | .cplx re im => some (re, im)
+  | .float b => some (b, 0)
+  | .int v => some (i64ToFloat v, 0)
+  | .big v => match bigFloat v with | .ok b => some (b, 0) | .error _ => none
+  | .bool b => some (if b then 0x3ff0000000000000 else 0, 0)
+  | _ => none
+
+/-- `complexEqual`: an int operand is compared exactly with the real part -/
+def complexEqual (fp : FP) (re im : Nat) (other : Obj) : Option Bool :=
+  match other with
+  | .int _ | .big _ | .bool _ =>
+    if !fp.eq im 0 then some false else     -- imag(a) != 0
+    match floatCompare fp re other with
+    | some (some .eq) => some true
+    | _ => some false
+  | o =>
+    match convertToComplex o with
+    | some (r2, i2) => some (fp.eq re r2 && fp.eq im i2)
+    | none => none
+
+/-- `Complex.M__lt__` … `M__ge__`: no ordering (TypeError) for numbers, `==`/`!=` by `complexEqual` -/
+def cplxCmpMethod (fp : FP) (op : CmpOp) (re im : Nat) (other : Obj) : Res :=
+  if op == .eq || op == .ne then
+    match complexEqual fp re im other with
+    | some e => .ok (.bool (if op == .eq then e else !e))
+    | none => .ok .notImpl
+  else
+    match convertToComplex other with
+    | some _ => .error .type
+    | none => .ok .notImpl
+
 /-- `py.Lt` … `py.Ne`: try a's method, then b's reflected method -/
 def richCmp (fp : FP) (op : CmpOp) (a b : Obj) : Res :=
-  let meth (op : CmpOp) (x y : Obj) : Obj :=
+  let meth (op : CmpOp) (x y : Obj) : Res :=
     match x with
-    | .float f => floatCmpMethod fp op f y
-    | .int v | .big v => intCmpMethod op v y
-    | .bool t => if op == .eq || op == .ne then intCmpMethod op (if t then 1 else 0) y else .notImpl
-    | _ => .notImpl
-  let r1 := meth op a b
-  if r1 != .notImpl then .ok r1 else
-  let r2 := meth op.swap b a
-  if r2 != .notImpl then .ok r2 else
-  if (op == .eq || op == .ne) && typeTag a != typeTag b then .ok (.bool (op == .ne)) else .error .type
+    | .float f => .ok (floatCmpMethod fp op f y)
+    | .int v | .big v => .ok (intCmpMethod op v y)
+    | .bool t => .ok (if op == .eq || op == .ne then intCmpMethod op (if t then 1 else 0) y else .notImpl)
+    | .cplx re im => cplxCmpMethod fp op re im y
+    | _ => .ok .notImpl
+  match meth op a b with
+  | .error e => .error e
+  | .ok r1 =>
+    if r1 != .notImpl then .ok r1 else
+    match meth op.swap b a with
+    | .error e => .error e
+    | .ok r2 =>
+      if r2 != .notImpl then .ok r2 else
+      if (op == .eq || op == .ne) && typeTag a != typeTag b then .ok (.bool (op == .ne)) else .error .type
 
 inductive BinOp | add | sub | mul | truediv | floordiv | mod | pow
 deriving DecidableEq, Repr
@@ -271,7 +328,7 @@ def BinOp.all : List BinOp := [.add, .sub, .mul, .truediv, .floordiv, .mod, .pow
 /-- `Float.M__op__` (rev = false) and `Float.M__rop__` (rev = true): `a` is the receiver -/
 def floatMethod (fp : FP) (op : BinOp) (rev : Bool) (a : Nat) (other : Obj) : Res :=
   match convertToFloat other with
-  | none => .ok .notImpl
+  | none => floatNotImplemented other
   | some b =>
     let (x, y) := if rev then (b, a) else (a, b)    -- x op y
     match op with
@@ -281,7 +338,7 @@ def floatMethod (fp : FP) (op : BinOp) (rev : Bool) (a : Nat) (other : Obj) : Re
     | .truediv => if isZero y then .error .zeroDiv else .ok (.float (fp.div x y))
     | .floordiv => do let (q, _) ← floatDivMod fp x y; return .float q
     | .mod => do let (_, r) ← floatDivMod fp x y; return .float r
-    | .pow => .ok (.float (fp.pow x y))
+    | .pow => floatPow fp x y
 
 /-- `MakeFloat` on int-like objects and floats (Bool has no `__float__`) -/
 def makeFloat : Obj → Except Err Nat
@@ -293,19 +350,26 @@ def makeFloat : Obj → Except Err Nat
 /-- integer ** integer (non-negative exponent): exact (C07) -/
 def ipow (a : Int) (n : Nat) : Int := a ^ n
 
+/-- `intTrueDiv`: the float nearest to the exact quotient (`big.Rat.Float64`), with the hardware
+division as a fast path when both operands are exact floats -/
+def intTrueDiv (fp : FP) (x y : Int) : Except Err Obj :=
+  if y = 0 then .error .zeroDiv else
+  if x = 0 then .ok (.float (withSign (y < 0) 0)) else
+  if x.natAbs ≤ 2^53 && y.natAbs ≤ 2^53 then .ok (.float (fp.div (i64ToFloat x) (i64ToFloat y))) else
+  match rneRat x.natAbs y.natAbs with
+  | none => .error .overflow
+  | some b => .ok (.float (withSign ((x < 0) != (y < 0)) b))
+
 /-- `Int.M__op__` / `BigInt.M__op__` with the receiver `a` (`wordRecv`: receiver is a machine word) -/
-def intMethod (fp : FP) (op : BinOp) (rev : Bool) (wordRecv : Bool) (a : Int) (other : Obj) : Res :=
+def intMethod (fp : FP) (op : BinOp) (rev : Bool) (_wordRecv : Bool) (a : Int) (other : Obj) : Res :=
   match op with
   | .truediv =>
-    -- `M__truediv__` / `M__rtruediv__`: MakeFloat(other) first, then the receiver
-    match makeFloat other with
-    | .error e => .error e
-    | .ok fb =>
-      match (if wordRecv then .ok (i64ToFloat a) else bigFloat a) with
-      | .error e => .error e
-      | .ok fa =>
-        let (x, y) := if rev then (fb, fa) else (fa, fb)
-        if isZero y then .error .zeroDiv else .ok (.float (fp.div x y))
+    -- `M__truediv__` / `M__rtruediv__`: int-like operands only (ConvertToBigInt)
+    match intOf other with
+    | none => .ok .notImpl
+    | some b =>
+      let (x, y) := if rev then (b, a) else (a, b)
+      intTrueDiv fp x y
   | _ =>
     match intOf other with
     | none => .ok .notImpl
@@ -321,11 +385,28 @@ def intMethod (fp : FP) (op : BinOp) (rev : Bool) (wordRecv : Bool) (a : Int) (o
         if y < 0 then
           -- (*BigInt).pow: negative power => floats
           match bigFloat x, bigFloat y with
-          | .ok fx, .ok fy => .ok (.float (fp.pow fx fy))
+          | .ok fx, .ok fy => floatPow fp fx fy
           | .error e, _ => .error e
           | _, .error e => .error e
         else .ok (maybeInt (ipow x y.toNat))
       | .truediv => .ok .notImpl
+
+/-- Go's complex128 `*`: the plain formula on the four parts -/
+def cplxMul (fp : FP) (x y : Nat × Nat) : Nat × Nat :=
+  (fp.sub (fp.mul x.1 y.1) (fp.mul x.2 y.2), fp.add (fp.mul x.1 y.2) (fp.mul x.2 y.1))
+
+/-- `Complex.M__op__` (rev = false) / `Complex.M__rop__` (rev = true); `a` is the receiver.
+Only `+ - *` are modelled by value; `/ // % **` give an opaque complex. -/
+def cplxMethod (fp : FP) (op : BinOp) (rev : Bool) (a : Nat × Nat) (other : Obj) : Res :=
+  match convertToComplex other with
+  | none => floatNotImplemented other
+  | some b =>
+    let (x, y) := if rev then (b, a) else (a, b)    -- x op y
+    match op with
+    | .add => .ok (.cplx (fp.add x.1 y.1) (fp.add x.2 y.2))
+    | .sub => .ok (.cplx (fp.sub x.1 y.1) (fp.sub x.2 y.2))
+    | .mul => let r := cplxMul fp x y; .ok (.cplx r.1 r.2)
+    | _ => .ok .cplxOpaque
 
 /-- `py.Add` … `py.Pow(a, b, None)`: a's method, then b's reflected method if the types differ -/
 def binop (fp : FP) (op : BinOp) (a b : Obj) : Res :=
@@ -334,6 +415,7 @@ def binop (fp : FP) (op : BinOp) (a b : Obj) : Res :=
     | .float f => floatMethod fp op rev f y
     | .int v => intMethod fp op rev true v y
     | .big v => intMethod fp op rev false v y
+    | .cplx re im => cplxMethod fp op rev (re, im) y
     | _ => .ok .notImpl      -- Bool has no arithmetic methods (C07-K01)
   match meth false a b with
   | .error e => .error e
@@ -351,7 +433,7 @@ def divmod (fp : FP) (a b : Obj) : Res :=
     match x with
     | .float f =>
       match convertToFloat y with
-      | none => .ok .notImpl
+      | none => floatNotImplemented y
       | some g => do
         let (p, q) := if rev then (g, f) else (f, g)
         let (d, m) ← floatDivMod fp p q
@@ -550,7 +632,23 @@ def unop (op : UnOp) (a : Obj) : Res :=
     | .int => .ok a
     | .float => (makeFloat a).map .float
     | .str => .ok (.str (toString v))
+  | .cplx re im =>
+    let flip (f : Nat) : Nat := if signBit f then f - 2^63 else f + 2^63
+    match op with
+    | .neg => .ok (.cplx (flip re) (flip im))
+    | .pos => .ok a
+    | .bool => .ok (.bool (!(isZero re && isZero im)))     -- a != 0
+    | .abs => .ok .cplxOpaque                               -- cmplx.Abs: not modelled
+    | .str => .ok .cplxOpaque                               -- text form of a complex: not modelled
+    | .int | .float => .error .type
   | _ => .error .type
+
+/-- `builtin_abs`: `py.Abs` -/
+def builtinAbs (x : Obj) : Res := unop .abs x
+/-- `builtin_pow(x, y)`: `py.Pow(x, y, None)` -/
+def builtinPow (fp : FP) (x y : Obj) : Res := binop fp .pow x y
+/-- `builtin_divmod`: `py.DivMod`, packed into a tuple -/
+def builtinDivmod (fp : FP) (x y : Obj) : Res := divmod fp x y
 
 /-- `builtin_sum` over a list: left fold of `py.Add` from `Int(0)` -/
 def builtinSum (fp : FP) (xs : List Obj) : Res :=
